@@ -144,7 +144,11 @@ int Engine::do_start(const J &st) {
 	std::string mode = st.gets("mode", "debug");
 	unsigned flush_ms = (unsigned) st.geti("flush_ms", 0);
 	bus.answers_enabled = !st.getb("silent_bus", false);
-	bus.pending.clear();
+	// what the bus sent for an earlier session and nobody has read yet normally never arrives (the line is flushed); sessions that follow a
+	// slow interface keep it: the late bytes are still on the line when the next session opens it
+	if (!st.getb("keep_pending", false)) bus.pending.clear();
+	bus.type_delays.erase(MSG_SYS_MAGIC);
+	if (st.has("magic_delay_ms")) bus.type_delays[MSG_SYS_MAGIC] = {0, (uint64_t) st.geti("magic_delay_ms") * 1000};
 	debug_mode = (mode == "debug" || mode == "debug_cfg");
 	const char *dir = nullptr;
 	if (st.has("config") && !plan["configs"][(size_t) st.geti("config")].is_null()) {
